@@ -4,8 +4,13 @@
   `_args[k]->value(ctx)` lazily, in the order written in each method.
 
   Hazards modelled (each is a place where the C++ performs an undefined or foreign-exception
-  operation): `Integer(double)` casts of out-of-range decimals (floatToInt), signed overflow in index
-  arithmetic (signedOverflow), typed-null operands dereferenced without a null test (nullDeref).
+  operation): `Integer(double)` casts of out-of-range decimals (floatToInt), signed `int64_t` index
+  arithmetic (`sadd`/`ssub`: signedOverflow when the C operation overflows), typed-null operands
+  dereferenced without a null test (nullDeref). After the `fix:` commits e2c4824 (substr/subraw: a
+  position still negative after adding the length selects nothing), cbe22cc (hex: pad count clamped
+  to 16 before the digit loop), fde74fa (abs wraps) and eec6e8e (pow(integer, integer) exact modulo
+  2^64) none of the signed operations below can overflow any more: Proofs/C10.lean
+  (`text_builtins_no_hazard`, `substr_contract`, `hex_contract`, `abs_contract`, `pow_exact`).
 -/
 import BlocV.Model.Ops
 
@@ -62,6 +67,19 @@ def readPos (a : Val) : Res PosArg :=
 
 def sliceBytes (s : Bytes) (a b : Int64) : Bytes := (s.drop a.toNatClampNeg).take b.toNatClampNeg
 
+/-- The index arithmetic of `substr`/`subraw` after `if (c == 0) return val;`, as builtin_substr.cpp /
+builtin_subraw.cpp write it on `int64_t` (signed C operations: `sadd`/`ssub`):
+    a = (a < 0 ? a + c : a);
+    b = (a < 0 ? 0 : std::max<int64_t>(std::min(b, c - a), 0L));
+A position that is still negative after adding the length selects nothing, and `c - a` is then not
+computed at all (it overflowed for a = INT64_MIN before commit e2c4824). Returns the adjusted (a, b). -/
+def substrRange (c a0 b : Int64) : Res (Int64 × Int64) := do
+  let a ← if a0 < 0 then sadd a0 c else pure a0
+  if a < 0 then pure (a, 0)
+  else do
+    let d ← ssub c a
+    pure (a, imax (imin b d) 0)
+
 /-- Shared body of `substr` (strings) and `subraw` (bytes). `mk` rebuilds the value, `get` is the
 typed accessor, `nullTy` the type of the result for an untyped-null first argument. -/
 def substrLike (major : Major) (nullTy : Ty) (get : Val → Res Bytes) (mk : Bytes → Val)
@@ -87,10 +105,8 @@ def substrLike (major : Major) (nullTy : Ty) (get : Val → Res Bytes) (mk : Byt
         | .pos b0 => b := b0
       | [] => pure ()
       if c == 0 then return val
-      let a ← if a0 < 0 then sadd a0 c else pure a0
-      let d ← ssub c a
-      let b' := imax (imin b d) 0
-      if a ≥ 0 && b' > 0 then return mk (sliceBytes s a b') else return mk []
+      let ab ← liftR (substrRange c a0 b)
+      if ab.1 ≥ 0 && ab.2 > 0 then return mk (sliceBytes s ab.1 ab.2) else return mk []
   | _ => argTypeErr
 
 def biSubstr (args : List (Thunk m)) : m Val := substrLike .str Ty.str Val.asStr Val.str args
@@ -259,8 +275,9 @@ def biTokenize (args : List (Thunk m)) : m Val := do
     | _ => argTypeErr
   | _ => argTypeErr
 
-/-- `HEXExpression::hex(val, n)`: 15 upper nibbles printed once a non-zero nibble was seen or the
-running `n` reached 16, then the lowest nibble. `n += 1` is signed. -/
+/-- `HEXExpression::hex(val, n)`: `n` is first clamped to 16 (`if (n > 16) n = 16;`, commit cbe22cc),
+then 15 upper nibbles are printed once a non-zero nibble was seen or the running `n` reached 16, then
+the lowest nibble. `n += 1` is a signed C addition (`sadd`); after the clamp it stays ≤ 31. -/
 def hexDigitB (c : UInt64) : UInt8 := if c < 10 then (48 + c).toUInt8 else (87 + c).toUInt8
 
 def hexLoop (v : Int64) : Nat → Int64 → Int64 → Bytes → Res Bytes
@@ -275,6 +292,12 @@ def hexLoop (v : Int64) : Nat → Int64 → Int64 → Bytes → Res Bytes
     | .err c a => .err c a
     | .haz h => .haz h
     | .unmodelled => .unmodelled
+
+/-- `if (n > Integer(sizeof(buf))) n = Integer(sizeof(buf));` -/
+def hexClamp (n : Int64) : Int64 := if n > 16 then 16 else n
+
+/-- `HEXExpression::hex(val, n)` as a whole. -/
+def hexStr (v n : Int64) : Res Bytes := hexLoop v 15 (hexClamp n) 0 []
 
 def biHex (args : List (Thunk m)) : m Val := do
   match args with
@@ -295,7 +318,7 @@ def biHex (args : List (Thunk m)) : m Val := do
       | .int => arg0.asInt
       | .num => do let d ← arg0.asNum; castToInt d
       | _ => argTypeErr
-    let s ← hexLoop v 15 n 0 []
+    let s ← hexStr v n
     return .str s
   | _ => argTypeErr
 
@@ -378,6 +401,63 @@ def biRaw (args : List (Thunk m)) : m Val := do
       if v < 0 || v > 255 then rerr Gen.EXC_RT_OUT_OF_RANGE else pure ()
     | [] => pure ()
     return .raw (List.replicate n.toNatClampNeg v.toUInt64.toUInt8)
+
+/-! ### abs / pow (blocc/builtin/builtin_abs.cpp, builtin_pow.cpp) -/
+
+/-- `abs(x)`. INTEGER: `l < 0 ? Integer(0 - uint64_t(l)) : l` — computed in `uint64_t`, so INT64_MIN
+wraps to itself exactly as the unary minus does (`Num.ineg`; commit fde74fa, before: signed `-l`).
+NUMERIC: `std::abs(double)` clears the sign bit (NaN stays NaN: canonical pattern). An untyped null
+gives a null decimal, a typed null is returned as it is. IMAGINARY is not modelled. -/
+def biAbs (args : List (Thunk m)) : m Val := do
+  match args with
+  | t0 :: _ =>
+    let val ← t0
+    match val.type.major with
+    | .none => return .null Ty.num
+    | .int => if val.isNull then return val else do
+        let l ← val.asInt
+        return .int (if l < 0 then ineg l else l)
+    | .num => if val.isNull then return val else do
+        let d ← val.asNum
+        return .num (bits (f d).abs)
+    | .imag => if val.isNull then return val else liftR .unmodelled
+    | _ => argTypeErr
+  | _ => argTypeErr
+
+/-- `pow(x, y)`: both arguments are evaluated first, then the nested `switch` on the two majors — the
+same cells as the `**` operator (Model/Ops.lean `arith` with `Num.ipow`), but no level test and the
+error of a foreign operand is FUNC_ARG_TYPE. INTEGER × INTEGER is the exact power modulo 2^64
+(`Num.ipow`: square-and-multiply in `uint64_t`; a negative exponent gives 1/(b**−n) truncated, and
+DIVIDE_BY_ZERO for base 0) since commit eec6e8e (before: through `std::pow` on doubles and an undefined
+conversion back). Mixed and decimal cells go through `std::pow(double, double)` (`Num.fpow`); cells with
+an imaginary operand are not modelled. -/
+def biPow (args : List (Thunk m)) : m Val := do
+  match args with
+  | t0 :: t1 :: _ =>
+    let a1 ← t0
+    let a2 ← t1
+    match a1.type.major, a2.type.major with
+    | .none, .none => return .null Ty.num
+    | .none, .int | .none, .num | .none, .imag => return .null a2.type
+    | .int, .none => return .null Ty.int
+    | .num, .none => return .null Ty.num
+    | .imag, .none => return .null Ty.imag
+    | .int, .int =>
+      if a2.isNull || a1.isNull then return .null Ty.int else do
+        let x ← a1.asInt; let y ← a2.asInt; let r ← ipow x y; return .int r
+    | .int, .num =>
+      if a2.isNull || a1.isNull then return .null Ty.num else do
+        let x ← a1.asInt; let y ← a2.asNum; return .num (fpow (bits x.toFloat) y)
+    | .num, .int =>
+      if a2.isNull || a1.isNull then return .null Ty.num else do
+        let x ← a1.asNum; let y ← a2.asInt; return .num (fpow x (bits y.toFloat))
+    | .num, .num =>
+      if a2.isNull || a1.isNull then return .null Ty.num else do
+        let x ← a1.asNum; let y ← a2.asNum; return .num (fpow x y)
+    | .int, .imag | .num, .imag | .imag, .int | .imag, .num | .imag, .imag =>
+      if a2.isNull || a1.isNull then return .null Ty.imag else liftR .unmodelled
+    | _, _ => argTypeErr
+  | _ => argTypeErr
 
 /-! ### integer / decimal text -/
 
@@ -576,6 +656,8 @@ def evalBuiltin {m : Type → Type} [Monad m] [MonadLiftT Res m] (fmtNum : Num.F
   | "b64enc" => some (biB64 true args)
   | "b64dec" => some (biB64 false args)
   | "str" => some (biStr fmtNum args)
+  | "abs" => some (biAbs args)
+  | "pow" => some (biPow args)
   | _ => none
 
 end BlocV
